@@ -82,6 +82,9 @@ inductive Req
   | hist (p : HistP) (sub : Req)
   | range (f : Field) (cuts : List Int) (sub : Req)
   | filter (f : Field) (v : Int) (sub : Req)
+  /-- top_hits: the best `k` `(sort key, document address)` pairs; the sort key is a value of
+  field `f`, the address the first value of field `addr` (mirrors: metric/top_hits.rs) -/
+  | topHits (f addr : Field) (k : Nat) (desc : Bool)
 deriving Repr
 
 /-! ### bucket arithmetic -/
@@ -124,6 +127,20 @@ def rangeIdxs (f : Field) (cuts : List Int) (d : Doc) : List Int :=
   (d.vals f).map (fun v => (rangeIdx cuts v : Int))
 
 def filterMatch (f : Field) (v : Int) (d : Doc) : Bool := (d.vals f).contains v
+
+/-! ### top hits -/
+
+/-- `(sort key, document address)` -/
+abbrev HitE := Int × Int
+
+/-- order of top_hits: by sort key (ascending or descending), ties by ascending address
+(mirrors: top_score_collector.rs::compare_for_top_k through `TopNComputer`) -/
+def hitLe (desc : Bool) (a b : HitE) : Bool :=
+  if desc then decide (b.1 < a.1) || (a.1 == b.1 && decide (a.2 ≤ b.2))
+  else decide (a.1 < b.1) || (a.1 == b.1 && decide (a.2 ≤ b.2))
+
+def hitEntries (f addr : Field) (d : Doc) : List HitE :=
+  (d.vals f).map (fun v => (v, (d.vals addr).headD 0))
 
 /-! ### metric accumulator -/
 
@@ -170,6 +187,7 @@ def Acc.ofVals (vs : List Int) : Acc M :=
   | .hist _ sub => List (Int × Nat × Res M sub)
   | .range _ _ sub => List (Int × Nat × Res M sub)
   | .filter _ _ sub => Nat × Res M sub
+  | .topHits _ _ _ _ => List HitE
 
 /-- integers `lo, lo+1, …` (`n` of them) -/
 def intRange (lo : Int) : Nat → List Int
@@ -265,5 +283,7 @@ def evalAgg : (r : Req) → List Doc → Res M r
   | .filter f v sub, docs =>
     let ds := docs.filter (filterMatch f v)
     (ds.length, evalAgg sub ds)
+  | .topHits f addr k desc, docs =>
+    (isort (hitLe desc) (docs.flatMap (hitEntries f addr))).take k
 
 end TantivyModel.Agg
